@@ -44,6 +44,7 @@ from sqlalchemy import (
     bindparam,
     case,
     cast,
+    column as sa_column,
     delete,
     except_,
     exists,
@@ -55,6 +56,7 @@ from sqlalchemy import (
     not_,
     or_,
     select,
+    text,
     true,
     type_coerce,
     union,
@@ -750,6 +752,11 @@ def select_desc(draw, depth=1, allow_wrap=True, orm=None):
         "setop": None,
         "xopt": draw(st.sampled_from([None, None, None, "foo", "yield", "populate"])),
         "xjoin": draw(st.sampled_from([0, 1])),
+        "np": draw(st.one_of(
+            st.none(), st.none(), st.none(),
+            st.fixed_dictionaries({"shape": st.integers(0, 3), "at": st.integers(0, 7),
+                                   "vals": st.lists(st.tuples(st.just("lim"), st.integers(0, 5)).map(list), min_size=3, max_size=3)}),
+        )),
     }
     shape = draw(st.sampled_from(["cols", "ent", "ent", "agg"] if orm else ["cols", "cols", "ent", "agg"]))
     if shape == "ent":
@@ -835,7 +842,7 @@ def stmt_desc(depth=1):
 SEL_TOGGLES = [
     "distinct", "outer0", "full0", "label0", "limit", "offset", "for_update", "prefix", "col_order", "label_style",
     "lit_type", "cast_type", "literal_execute", "where_drop", "order_desc", "op_flip", "in_neg", "wrap_name", "setop_op",
-    "join_drop", "loader", "opt_drop", "total", "wlc_flag", "having_op", "agg_fn", "where_dup", "xopt", "nocache_type", "delta_type", "xjoin", "wlc_op", "type_arg", "type_mode", "lk_kind", "lk_neg", "lk_esc", "bind_src1", "bind_src2", "bind_src3",
+    "join_drop", "loader", "opt_drop", "total", "wlc_flag", "having_op", "agg_fn", "where_dup", "xopt", "nocache_type", "delta_type", "xjoin", "wlc_op", "type_arg", "type_mode", "lk_kind", "lk_neg", "lk_esc", "bind_src1", "bind_src2", "bind_src3", "np_at1", "np_at2", "np_at3", "np_shape",
 ]
 DML_TOGGLES = ["ret", "ret_more", "pcols_more", "many", "val_drop", "where_drop", "op_flip", "lit_type", "in_neg", "sync", "sval", "literal_execute", "nocache_type", "delta_type", "type_arg", "type_mode", "lk_kind", "lk_neg", "lk_esc", "bind_src1", "bind_src2", "bind_src3"]
 
@@ -924,6 +931,12 @@ def _toggle(d, name):
                 n[:] = ["lt", n[1], "t"]
                 return True
         _walk(d, f)
+    elif name in ("np_at1", "np_at2", "np_at3", "np_shape"):
+        if d.get("np"):
+            if name == "np_shape":
+                d["np"]["shape"] = (d["np"]["shape"] + 1) % 4
+            else:
+                d["np"]["at"] = (d["np"]["at"] + [0, 1, 3, 5][int(name[-1])]) % 8
     elif name in ("bind_src1", "bind_src2", "bind_src3"):
         def f(n):
             if n[0] == "bp":
@@ -1310,8 +1323,63 @@ WRAP_NAMES = ["w0", "w1"]
 XOPTS = {"foo": {"foo": 1}, "yield": {"yield_per": 2}, "populate": {"populate_existing": True}}
 
 
+NP_SHAPES = ["exists", "scalar", "union", "text"]
+
+
+def _nested_params(stmt, np_):
+    """one named bind ("nq") used on up to three nesting levels, with statement-level .params(nq=...) applied on the
+    drawn levels (bit 1: enclosing statement, bit 2: enclosed statement, bit 4: innermost statement / UNION member).
+    The enclosing statement's value wins.  Returns (statement, value needed at execute() time or None)"""
+    shape = NP_SHAPES[np_["shape"] % 4]
+    at = np_["at"] % 8
+    vals = [v[1] for v in np_["vals"]]
+    nq = lambda: bindparam("nq", type_=Integer)  # noqa: E731
+    applied = at & 1
+    if shape == "text":
+        l1 = text("SELECT id FROM tb WHERE id < :nq").columns(sa_column("id", Integer))
+        if at & 2:
+            l1 = l1.params(nq=vals[1])
+            applied |= 2
+        nested = select(l1.subquery("np_t").c.id)
+    elif shape == "union":
+        m1 = select(tb.c.id).where(tb.c.id < nq())
+        m2 = select(tc.c.id).where(tc.c.id > nq())
+        if at & 4:
+            m1 = m1.params(nq=vals[2])
+            applied |= 4
+        u = union(m1, m2)
+        if at & 2:
+            u = u.params(nq=vals[1])
+            applied |= 2
+        nested = select(u.subquery("np_u").c.id)
+    else:
+        l2 = select(tb.c.id).where(tb.c.id < nq())
+        if at & 4:
+            l2 = l2.params(nq=vals[2])
+            applied |= 4
+        sq = l2.subquery("np_q")
+        l1 = select(sq.c.id).where(sq.c.id != nq())
+        if at & 2:
+            l1 = l1.params(nq=vals[1])
+            applied |= 2
+        nested = l1
+    if shape == "scalar":
+        crit = nq() >= select(func.count()).select_from(nested.subquery("np_c")).scalar_subquery()
+    else:
+        crit = and_(nq() != -1, exists(nested))
+    stmt = stmt.where(crit)
+    if at & 1:
+        stmt = stmt.params(nq=vals[0])
+    STATS["nested_params"] += 1
+    return stmt, (None if applied else vals[0])
+
+
 def _build_select(d, order):
     b = _build_select_inner(d, order)
+    if d.get("np") and hasattr(b.stmt, "where") and not b.stmt.is_dml:
+        b.stmt, need = _nested_params(b.stmt, d["np"])
+        if need is not None:
+            b.params = dict(b.params or {}, nq=need)
     post = b.params.pop("__post__", None) if b.params else None
     if post:
         b.stmt = b.stmt.params(post)  # bind source 3: values attached with statement.params()
